@@ -1,3 +1,4 @@
+#![cfg_attr(kani, feature(allocator_api))]
 #![allow(dead_code)]
 #![allow(static_mut_refs)]
 #![allow(clippy::all)]
@@ -10,3 +11,8 @@ pub mod h_c05;
 pub mod model;
 pub mod props;
 pub mod h_std;
+pub mod catalogue;
+pub mod h_cat;
+pub mod h_c18;
+pub mod h_c13;
+pub mod h_map;
